@@ -32,6 +32,17 @@ static bool closer(int a, int cutoff) { return 3 * a < 4 * cutoff || a < 128; }
 
 static void gen_mul(const GenCtx &ctx, Case &c, int viewpct) {
   bool omp = vf_cfg_have_openmp();
+  if (ctx.tier && g::coin(1, 1500)) {
+    // thorough tier only: all three dimensions above 4096 with automatic parameters - the automatic table parameter and the
+    // default cutoff take their largest values only here, and only with realistic (host-sized) caches
+    std::string r = g::pick<std::string>({"mzd_mul_m4rm", "mzd_addmul_m4rm", "mzd_mul", "mzd_addmul"});
+    c.sets("op", r).set("m", 4096 + g::rng(0, 200)).set("l", 4096 + g::rng(0, 200)).set("n", 4097 + g::rng(0, 1400));
+    c.set(r.find("m4rm") != std::string::npos ? "k" : "cutoff", 0);
+    c.sets("A.pat", "dense").setu("A.seed", g::seed()).sets("B.pat", "dense").setu("B.seed", g::seed());
+    if (r.find("addmul") != std::string::npos || g::coin(1, 2)) c.sets("C.dst", "given").set("C.jkind", 2).setu("C.jseed", g::seed());
+    else c.sets("C.dst", "null");
+    return;
+  }
   std::string r = g::wpick<std::string>({{6, "mzd_mul"}, {5, "mzd_addmul"}, {5, "mzd_mul_m4rm"}, {4, "mzd_addmul_m4rm"},
                                           {2, "_mzd_mul_m4rm"}, {3, "mzd_mul_naive"}, {2, "mzd_addmul_naive"},
                                           {2, "_mzd_mul_naive"}, {2, "_mzd_mul_va"}, {2, "_mzd_mul_even"},
